@@ -294,6 +294,8 @@ func vfC22Check(rep *vk.Report, d *vfDB, dbi, qi int, q *vfQuery, r *rand.Rand, 
 				} else {
 					rep.Count("open_unmatched", 1)
 				}
+			} else if (strings.Contains(text, "average") || strings.Contains(text, "total")) && vfDiffOnlyRoundingOrder(relV.rows, res.rows, cols) {
+				rep.Count("sum_rounding_order_differences", 1) // 16-digit sums of quotients: the last digits depend on the row order
 			} else {
 				w := witness(cfg, res, "row multiset differs from the model of the query as written")
 				w.OnlyInModel, w.OnlyInEngine = vfTruncList(onlyM, 12), vfTruncList(onlyE, 12)
@@ -313,6 +315,9 @@ func vfC22Check(rep *vk.Report, d *vfDB, dbi, qi int, q *vfQuery, r *rand.Rand, 
 				}
 				if lbl != "" {
 					cl = "C22/rows-differ/" + lbl
+				}
+				if vfMatchesWhereBeforeRecordSummarize(d, q.root, res.rows, cols) {
+					cl = "C22/rows-differ/where-conjunct-applied-before-record-returning-summarize"
 				}
 				rep.Violate(cl, key(cfg), w)
 			}
